@@ -841,3 +841,142 @@ func enclosingBlock(body *ast.BlockStmt, st ast.Stmt) *ast.BlockStmt {
 	})
 	return out
 }
+
+// ---------------------------------------------------------------- EL1
+
+// RuleEL1: in a loop over things that each know their directive, a fault found in one of
+// them is reported at that one's directive. Where the range variable is a directive, or a
+// struct with a field of type Directive / *Directive, an error constructed inside the loop by
+// a method of Directive (KeywordError, BodyError, ...) takes as receiver a value reached from
+// the range variable - not a directive fixed before the loop ("the first one's"): the
+// diagnostic would stand in a healthy directive, possibly in another file with another
+// include chain.
+func RuleEL1(c *Ctx) {
+	sc := c.Run.Begin("EL1", "inside a loop over elements that carry a directive, errors built by a method of Directive take their receiver from the loop element, not from a loop-invariant directive", 3)
+	defer sc.End()
+	dirT := c.Named("directive", "Directive")
+	pk := c.P.Pkg("core")
+	if dirT == nil || pk == nil {
+		sc.Undecided("anchors", "-", "unresolved anchor: directive.Directive / core")
+		return
+	}
+	isDir := func(t types.Type) bool {
+		if p, ok := t.(*types.Pointer); ok {
+			t = p.Elem()
+		}
+		return types.Identical(t, dirT)
+	}
+	carries := func(t types.Type) bool {
+		if isDir(t) {
+			return true
+		}
+		if p, ok := t.(*types.Pointer); ok {
+			t = p.Elem()
+		}
+		st, ok := t.Underlying().(*types.Struct)
+		if !ok {
+			return false
+		}
+		for i := 0; i < st.NumFields(); i++ {
+			if isDir(st.Field(i).Type()) {
+				return true
+			}
+		}
+		return false
+	}
+	n := 0
+	perFn := map[*ast.FuncDecl]int{}
+	c.P.Funcs(func(p *pkgT, fd *ast.FuncDecl) {
+		if p != pk {
+			return
+		}
+		info := p.TypesInfo
+		ast.Inspect(fd.Body, func(x ast.Node) bool {
+			rs, ok := x.(*ast.RangeStmt)
+			if !ok || rs.Value == nil {
+				return true
+			}
+			vid, ok := rs.Value.(*ast.Ident)
+			if !ok || vid.Name == "_" {
+				return true
+			}
+			vobj := info.ObjectOf(vid)
+			if vobj == nil || !carries(vobj.Type()) {
+				return true
+			}
+			// locals defined inside the loop from the element count as "of the element"
+			ofElem := map[types.Object]bool{vobj: true}
+			for changed := true; changed; {
+				changed = false
+				ast.Inspect(rs.Body, func(y ast.Node) bool {
+					as, ok := y.(*ast.AssignStmt)
+					if !ok || as.Tok != token.DEFINE {
+						return true
+					}
+					uses := false
+					for _, r := range as.Rhs {
+						ast.Inspect(r, func(z ast.Node) bool {
+							if id, ok := z.(*ast.Ident); ok && ofElem[info.ObjectOf(id)] {
+								uses = true
+							}
+							return true
+						})
+					}
+					if uses {
+						for _, l := range as.Lhs {
+							if id, ok := l.(*ast.Ident); ok && info.ObjectOf(id) != nil && !ofElem[info.ObjectOf(id)] {
+								ofElem[info.ObjectOf(id)] = true
+								changed = true
+							}
+						}
+					}
+					return true
+				})
+			}
+			inspectNoLit(rs.Body, func(y ast.Node) bool {
+				ret, ok := y.(*ast.ReturnStmt)
+				if !ok || len(ret.Results) == 0 {
+					return true
+				}
+				call, ok := ast.Unparen(ret.Results[len(ret.Results)-1]).(*ast.CallExpr)
+				if !ok {
+					return true
+				}
+				g := Callee(info, call)
+				if g == nil || recvNamedOf(g) != dirT {
+					return true
+				}
+				// an inner loop over something else owns its own returns
+				inner := false
+				ast.Inspect(rs.Body, func(z ast.Node) bool {
+					if r2, ok := z.(*ast.RangeStmt); ok && r2 != rs && r2.Pos() <= ret.Pos() && ret.End() <= r2.End() {
+						if id2, ok := r2.Value.(*ast.Ident); ok && info.ObjectOf(id2) != nil && carries(info.ObjectOf(id2).Type()) {
+							inner = true
+						}
+					}
+					return true
+				})
+				if inner {
+					return true
+				}
+				n++
+				perFn[fd]++
+				key := fmt.Sprintf("%s#%d", c.P.DeclName(fd), perFn[fd])
+				root := cfgx.RootObj(info, Recv(call))
+				switch {
+				case root != nil && ofElem[root]:
+					sc.Holds(key, c.P.Pos(call.Pos()), "reported at the directive of the element at fault")
+				case root != nil && root.Pos() < rs.Pos():
+					sc.Violation(key, c.P.Pos(call.Pos()), fmt.Sprintf("a fault found in the current element (%s) is reported at %s, a directive fixed before the loop: when the elements come from different directives the diagnostic stands in a healthy one (other line, possibly other file and include chain)", vid.Name, types.ExprString(Recv(call))))
+				default:
+					sc.Info(key, c.P.Pos(call.Pos()), "receiver neither from the element nor fixed before the loop")
+				}
+				return true
+			})
+			return true
+		})
+	})
+	if n == 0 {
+		sc.Undecided("sites", "-", "no error built inside a loop over directive-carrying elements")
+	}
+}
